@@ -23,6 +23,13 @@
 //!     HF_XET_TARGET_CHUNK_SIZE=256, HF_XET_MINIMUM_CHUNK_DIVISOR=2, honoured in debug builds): a 22 MB file (about 90,000 chunks)
 //!     is uploaded as new data, finalized, and uploaded again in a second session over the same local directories: the second
 //!     session must report 0 new bytes / 0 new chunks and deduped_bytes == file size.
+//!  X  xorb-only session shards (child process: 4 KiB chunks, 100,000-byte xorbs, HF_XET_MDB_SHARD_MIN_TARGET_SIZE=4096, so the
+//!     session shard is flushed to disk several times WHILE the 1.5 MB file is still being cleaned - those shard files hold xorb
+//!     records and no file record): session 1 uploads the file, session 2 over the same directories re-uploads it: 0 new bytes.
+//!  S  stray entries in the shard cache directory, fresh processes: child 1 uploads the file (same small limits, several shard
+//!     files) and exits; `.DS_Store`, `.<uuid>.mdb_temp`, `notes.txt`, editor backups, a sub-directory ... (40 entries, so that some
+//!     are listed before the shard files whatever the directory order) are dropped into `shard-cache`; child 2 - which can learn
+//!     about the shards only by scanning the directory - re-uploads the file: 0 new bytes.
 //! `VERIF_C11_ONLY=R,P,...` selects scenarios.  Exit 2 = the harness itself failed.
 use std::path::{Path, PathBuf};
 use std::sync::Arc;
@@ -354,10 +361,119 @@ fn scenario_g() {
     }
 }
 
+// ---------------------------------------------------------------- X, S: small limits, several shard files per session
+const SMALL_ENV: [(&str, &str); 3] = [("HF_XET_TARGET_CHUNK_SIZE", "4096"), ("HF_XET_MAX_XORB_BYTES", "100000"), ("HF_XET_MDB_SHARD_MIN_TARGET_SIZE", "4096")];
+const SMALL_FILE: usize = 1_500_000;
+
+/// child modes "xorbonly" (two sessions in this process), "store" (session 1 only), "reupload" (session 2 only); directory in C11_DIR
+fn child_small(tp: &Arc<ThreadPool>, mode: &str) {
+    if *deduplication::constants::TARGET_CHUNK_SIZE != 4096 || *deduplication::constants::MAX_XORB_BYTES != 100_000 || *mdb_shard::constants::MDB_SHARD_MIN_TARGET_SIZE != 4096 {
+        infra("X/S child: the limit overrides were not picked up (not a debug build?)".into());
+    }
+    let path = PathBuf::from(std::env::var("C11_DIR").unwrap_or_else(|_| infra("C11_DIR not set".into())));
+    let tp2 = tp.clone();
+    let mode2 = mode.to_string();
+    let (m1, m2) = tp
+        .external_run_async_task(async move {
+            let files = vec![data_of(21, SMALL_FILE)];
+            let m1 = if mode2 != "reupload" { Some(upload_metrics(TranslatorConfig::local_config(&path).unwrap(), tp2.clone(), &files).await) } else { None };
+            let m2 = if mode2 != "store" { Some(upload_metrics(TranslatorConfig::local_config(&path).unwrap(), tp2.clone(), &files).await) } else { None };
+            (m1, m2)
+        })
+        .unwrap_or_else(|e| witness(format!("{mode}: the upload session panicked / was aborted: {e}")));
+    if let Some(m1) = m1 {
+        if m1.total_bytes != SMALL_FILE || m1.new_bytes != SMALL_FILE {
+            infra(format!("X/S child: unexpected first session: {m1:?}"));
+        }
+    }
+    if let Some(m2) = m2 {
+        if m2.total_bytes != SMALL_FILE || m2.new_bytes != 0 || m2.new_chunks != 0 {
+            // the parent completes the description
+            println!("REUPLOAD new_bytes={} new_chunks={} deduped_chunks={} total_chunks={}", m2.new_bytes, m2.new_chunks, m2.deduped_chunks, m2.total_chunks);
+            std::process::exit(1);
+        }
+    }
+    println!("no violation found");
+}
+
+fn run_small_child(mode: &str, dir: &Path) -> Option<String> {
+    let exe = std::env::current_exe().unwrap_or_else(|e| infra(format!("current_exe: {e}")));
+    let mut cmd = std::process::Command::new(exe);
+    cmd.env("C11_CHILD", mode).env("C11_DIR", dir);
+    for (k, v) in SMALL_ENV {
+        cmd.env(k, v);
+    }
+    let out = cmd.output().unwrap_or_else(|e| infra(format!("spawning the child failed: {e}")));
+    let stdout = String::from_utf8_lossy(&out.stdout);
+    match out.status.code() {
+        Some(0) => None,
+        Some(1) => Some(stdout.lines().find(|l| l.starts_with("REUPLOAD ") || l.starts_with("WITNESS ")).unwrap_or("REUPLOAD ?").to_string()),
+        other => {
+            let err = String::from_utf8_lossy(&out.stderr);
+            let tail: String = err.lines().rev().take(8).collect::<Vec<_>>().into_iter().rev().collect::<Vec<_>>().join(" | ");
+            if err.contains("panicked at") {
+                witness(format!("{mode}: the child process running an upload session (4 KiB chunks, 100,000-byte xorbs, 4 KiB minimum shard size) died (status {other:?}): {tail}"));
+            }
+            infra(format!("{mode} child ended with status {other:?}: {} {tail}", stdout.trim()))
+        },
+    }
+}
+
+fn shard_cache_listing(dir: &Path) -> (Vec<String>, usize) {
+    let cache = dir.join("xet").join("shard-cache");
+    let names: Vec<String> = std::fs::read_dir(&cache).map(|rd| rd.flatten().map(|e| e.file_name().to_string_lossy().to_string()).collect()).unwrap_or_default();
+    let n_shards = names.iter().filter(|n| n.ends_with(".mdb") && n.len() == 68).count();
+    (names, n_shards)
+}
+
+fn scenario_x() {
+    let dir = tempfile::tempdir().unwrap();
+    if let Some(r) = run_small_child("xorbonly", dir.path()) {
+        let (_, n) = shard_cache_listing(dir.path());
+        witness(format!(
+            "X: (4 KiB chunks, 100,000-byte xorbs, minimum shard size 4096 bytes: the session shard is flushed several times while the file is being cleaned, giving shard files with xorb records but no file record) session 1 uploads a {SMALL_FILE}-byte file as new data and finalizes ({n} shard files reached the local shard cache); session 2 over the same directories re-uploads the unchanged file and stores new data again: {r} (expected 0 new bytes)"
+        ));
+    }
+}
+
+fn scenario_s() {
+    let dir = tempfile::tempdir().unwrap();
+    if let Some(r) = run_small_child("store", dir.path()) {
+        infra(format!("S: the first child reported {r}"));
+    }
+    let (_, n_shards) = shard_cache_listing(dir.path());
+    if n_shards == 0 {
+        infra("S: the first session left no shard in the shard cache".into());
+    }
+    let cache = dir.path().join("xet").join("shard-cache");
+    let mut strays: Vec<String> = vec![".DS_Store".into(), ".3f2b8a1c-7d4e-4b61-9a55-0c1d2e3f4a5b.mdb_temp".into(), "notes.txt".into(), "Thumbs.db".into(), "shard.mdb".into(), "README".into()];
+    for i in 0..32u64 {
+        let h = hash_of(77, i).hex();
+        strays.push(match i % 4 { 0 => format!("{h}.mdb~"), 1 => format!(".{h}.mdb.swp"), 2 => format!("{}.mdb", &h[..40]), _ => format!("{h}.bak") });
+    }
+    for name in &strays {
+        std::fs::write(cache.join(name), b"not a shard").unwrap_or_else(|e| infra(format!("S: writing {name}: {e}")));
+    }
+    std::fs::create_dir_all(cache.join("lost+found").join("inner")).unwrap();
+    std::fs::create_dir_all(cache.join("0000000000000000000000000000000000000000000000000000000000000000.mdb.d")).unwrap();
+    let (listing, _) = shard_cache_listing(dir.path());
+    let first_shard = listing.iter().position(|n| n.ends_with(".mdb") && n.len() == 68).unwrap_or(0);
+    if let Some(r) = run_small_child("reupload", dir.path()) {
+        witness(format!(
+            "S: a process uploads a {SMALL_FILE}-byte file (4 KiB chunks, 100,000-byte xorbs, minimum shard size 4096 bytes) and finalizes: {n_shards} shard files in the local shard cache; then {} foreign entries ({:?} ... and two directories) are dropped into that directory (read_dir lists {} entries, the first shard file at position {first_shard}); a NEW process re-uploads the unchanged file over the same directories and stores new data again: {r} (expected 0 new bytes)",
+            strays.len() + 2, &strays[..4], listing.len()
+        ));
+    }
+}
+
 fn main() {
     let tp = Arc::new(ThreadPool::new().expect("runtime"));
     if std::env::var("C11_CHILD").as_deref() == Ok("big") {
         child_big(&tp);
+        return;
+    }
+    if let Ok(mode) = std::env::var("C11_CHILD") {
+        child_small(&tp, &mode);
         return;
     }
     // a small xorb limit (configurable constant, read from the environment at first use) so that a 3 MB file is cut into several
@@ -368,6 +484,10 @@ fn main() {
     let t = std::time::Instant::now();
     // G runs in a child process; start it first so that it overlaps with the rest
     let g = if on("G") { Some(std::thread::spawn(scenario_g)) } else { None };
+    let xs = if on("X") || on("S") {
+        let (x, s_) = (on("X"), on("S"));
+        Some(std::thread::spawn(move || { if x { scenario_x(); } if s_ { scenario_s(); } }))
+    } else { None };
     if on("R") {
         scenario_r(&tp);
         eprintln!("R done at {:?}", t.elapsed());
@@ -383,6 +503,12 @@ fn main() {
     if on("B") {
         scenario_b(&tp);
         eprintln!("B done at {:?}", t.elapsed());
+    }
+    if let Some(h) = xs {
+        if h.join().is_err() {
+            infra("the thread running X / S panicked".into());
+        }
+        eprintln!("X, S done at {:?}", t.elapsed());
     }
     if let Some(g) = g {
         if g.join().is_err() {
